@@ -148,7 +148,8 @@ func (p *FunctionBuilder) CreateFunction(m *bmodel.MethodEntry) (*gmodel.Functio
 // If the types.Var doesn't have a name, defName is used instead.
 func (p *FunctionBuilder) createVar(v *types.Var, defName string) gmodel.Var {
 	name := v.Name()
-	if name == "" {
+	if name == "" || name == "_" {
+		// The generated code refers to the variable: a blank name will not do.
 		name = defName
 	}
 
